@@ -84,6 +84,9 @@ OP = st.one_of(
     st.tuples(st.just("set_other_attr"), st.integers(0, 2), st.integers(20, 22)),
     st.tuples(st.just("swap"), st.integers(0, 2)),
     st.tuples(st.just("swap_mid"), st.integers(0, 1)),
+    # the delegate becomes None for a while (the link to the former delegate is broken), every candidate's target changes,
+    # then a delegate is installed again
+    st.tuples(st.just("swap_via_none"), st.integers(0, 2), st.integers(40, 44)),
     st.tuples(st.just("del_local")), st.tuples(st.just("del_local_mid")),
     # the second deferring attribute of the same object (PrototypedFrom classes only): local value set / dropped
     st.tuples(st.just("alias_set"), st.integers(30, 32)), st.tuples(st.just("alias_del")),
@@ -295,6 +298,23 @@ def run(case, ctx):
             qs[qi].d = ds[op[1]]
             interesting = True
             ctx.label("swap")
+        elif k == "swap_via_none":
+            qi = cur_q if chain else 0
+            try:
+                qs[qi].d = None
+            except Exception as e:
+                ctx.fail("write/raised", "setting the delegate to None raised %r: %s" % (e, what))
+            del log[:]
+            for di in range(3):
+                setattr(ds[di], target, op[2] + di)
+                if log:
+                    ctx.fail("notify/unexpected", "%s.%s changed while the delegate is None (link broken) but the deferring attribute's "
+                             "handlers were notified %r: %s" % (ds[di], target, log, what))
+            cur_d[qi] = op[1]
+            qs[qi].d = ds[op[1]]
+            del log[:]
+            interesting = True
+            ctx.label("swap-via-none")
         elif k == "swap_mid":
             if not chain:
                 continue
